@@ -515,8 +515,9 @@ def replay_dir(ctx, tla, cfg, is_reset):
     return ctx.finish()
 
 
-def simulate_behaviours(tla, cfg, wd, num, depth, seed_, timeout=600):
-    """Run TLC in simulation mode and return the behaviours as lists of action labels ('A1(a1)', ...)."""
+def simulate_behaviours(tla, cfg, wd, num, depth, seed_, timeout=600, init_vars=()):
+    """Run TLC in simulation mode and return the behaviours as lists of action labels ('A1(a1)', ...).
+    With init_vars, each behaviour is (labels, {var: value}) for the initial state."""
     out = os.path.join(wd, "sim_" + os.path.splitext(cfg)[0])
     shutil.rmtree(out, ignore_errors=True)
     os.makedirs(out)
@@ -524,10 +525,22 @@ def simulate_behaviours(tla, cfg, wd, num, depth, seed_, timeout=600):
     behs = []
     for f in sorted(os.listdir(out)):
         labels = []
+        init = {}
+        nstate = 0
         for line in open(os.path.join(out, f)):
             m = re.match(r"^\\\* <(\w+(?:\([^)]*\))?) line \d+", line)
-            if m and not m.group(1).startswith("Init"):
-                labels.append(m.group(1))
-        behs.append(labels)
+            if m:
+                nstate += 1
+                if not m.group(1).startswith("Init"):
+                    labels.append(m.group(1))
+                continue
+            if init_vars and nstate == 1:
+                mv = re.match(r"^/\\ (\w+) = (.*)$", line)
+                if mv and mv.group(1) in init_vars:
+                    try:
+                        init[mv.group(1)] = parse_tla_value(mv.group(2))
+                    except Exception:
+                        init[mv.group(1)] = mv.group(2)
+        behs.append((labels, init) if init_vars else labels)
     shutil.rmtree(out, ignore_errors=True)
     return behs, r
